@@ -139,6 +139,80 @@ def _ctr_shape(ebf, ablk, eb):
     return False
 
 
+def _ctr_shape_blocks(ebf, ablk, eb):
+    """the same clause for the block-wise form: an outer loop over the block starts B = 0, 16, 32, .. (step_by(16) over
+    0..len, len = end - start) recomputes S = AES(A) with A[15] = 1, 2, 3, .. once per block, an inner loop over
+    J in 0..min(16, len - B) XORs payload[start + B + J] with S[J]"""
+    start, end = ('param', 2), ('param', 3)
+    xw = [w for w in buffer_script(ebf, lambda t: t == ('param', 1)) if w.kind == 'byte']
+    if len(xw) != 1:
+        return False
+    v = peel(xw[0].value)
+    P = xw[0].start
+    if not (v[0] == 'BitXor' and peel(v[1])[0] == 'index' and peel(peel(v[1])[1]) == ('param', 1) and rules.linear(peel(v[1])[2]) == rules.linear(P) and peel(v[2])[0] == 'index'):
+        return False
+
+    def is_next_var(y):
+        return isinstance(y, tuple) and y[:1] == ('field',) and len(y) == 3 and y[2] == '0' and isinstance(y[1], tuple) and y[1][:1] == ('as',) and is_call(y[1][1], 'Iterator::next')
+    lp = rules.linear(P)
+    vars_ = [x for x in lp[0] if is_next_var(x)]
+    if len(vars_) != 2 or lp[1] != 0 or lp[0].get(start) != 1 or any(lp[0][x] != 1 for x in vars_) or len(lp[0]) != 3:
+        return False
+    def iter_src(x):
+        it = peel(x[1][1][2][0])
+        return peel(it[2][0]) if is_call(it, 'IntoIterator::into_iter') else it
+    B = [x for x in vars_ if is_call(iter_src(x), 'Iterator::step_by')]
+    J = [x for x in vars_ if not is_call(iter_src(x), 'Iterator::step_by')]
+    if len(B) != 1 or len(J) != 1:
+        return False
+    B, J = B[0], J[0]
+    sb = rules.find_in_term(B, lambda y: is_call(y, 'Iterator::step_by'))
+    rng = peel(sb[2][0])
+    if not (peel(sb[2][1]) == ('const', 16) and rng[0] == 'agg' and rng[1].endswith('ops::range::Range')):
+        return False
+    f = dict(rng[2])
+    len_lin = ({end: 1, start: -1}, 0)
+    if not (peel(f['start']) == ('const', 0) and _lin_eq(rules.linear(f['end']), len_lin)):
+        return False
+    jr = rules.find_in_term(J, lambda y: isinstance(y, tuple) and y[:1] == ('agg',) and y[1].endswith('ops::range::Range'))
+    if jr is None:
+        return False
+    jf = dict(jr[2])
+    je = peel(jf['end'])
+    if not (peel(jf['start']) == ('const', 0) and is_call(je, 'cmp::min')):
+        return False
+    a1, a2 = [peel(x) for x in je[2]]
+    if a1 != ('const', 16):
+        a1, a2 = a2, a1
+    if a1 != ('const', 16) or not _lin_eq(rules.linear(a2), _lin_sub(len_lin, ({B: 1}, 0))):
+        return False
+    if peel(peel(v[2])[2]) != J:
+        return False
+    # S, A[15] and the counter step belong to the outer loop only: not under the inner iterator
+    def it_arg(t):
+        it = peel(term_of_operand(ebf, t.args[0]))
+        return peel(it[2][0]) if is_call(it, 'IntoIterator::into_iter') else it
+    inner_next = [bb for bb, t in ebf.calls() if callee_name(t).endswith('Iterator::next') and not is_call(it_arg(t), 'Iterator::step_by')]
+    outer_next = [bb for bb, t in ebf.calls() if callee_name(t).endswith('Iterator::next') and is_call(it_arg(t), 'Iterator::step_by')]
+    if len(inner_next) != 1 or len(outer_next) != 1:
+        return False
+
+    def outer_only(bb):
+        return ebf.cfg.dominates(outer_next[0], bb) and not ebf.cfg.dominates(inner_next[0], bb)
+    if not outer_only(eb[0][0]):
+        return False
+    w15 = [w for w in buffer_script(ebf, lambda t: t == ablk) if w.kind == 'byte' and off(w.start) == 15]
+    if len(w15) != 1 or not outer_only(w15[0].bb) or not ebf.cfg.can_reach(w15[0].bb, eb[0][0]):
+        return False
+    val = peel(w15[0].value)
+    if val[0] != 'phi':
+        return False
+    dl = rules.defs_with_conditions(ebf, val[1])
+    kinds = sorted('init1' if d == ('const', 1) else 'inc' if (is_call(d, 'wrapping_add') and peel(d[2][0]) == ('phi', val[1]) and peel(d[2][1]) == ('const', 1)) else 'other' for d, cs, bb in dl)
+    inc_bb = [bb for d, cs, bb in dl if is_call(d, 'wrapping_add')]
+    return kinds == ['inc', 'init1'] and all(outer_only(b_) for b_ in inc_bb)
+
+
 def run(tier):
     res = Result(PID)
     c = ctx('ws')
@@ -189,15 +263,26 @@ def run(tier):
         mk, msy = micw0[0][1]
         names = dict(msy)
         frm_len = [n_ for n_ in dict(frmw[0][2][1]) if n_.startswith('len(')]
-        port_terms = [n_ for n_ in names if n_.startswith('map_or(')]
+        # the third summand is the length of the optional port byte: 1 when a port is present, 0 otherwise - either
+        # `f_port.map_or(0, |_| 1)` or a value selected by a match / if-let on the same option
+        port_terms = [n_ for n_ in names if n_ != fl[0] and n_ not in frm_len]
         okg = mk == 8 and fl[0] in names and len(frm_len) == 1 and frm_len[0] in names and len(port_terms) == 1 and all(v_ == 1 for v_ in names.values()) and len(names) == 3
-        # the `+1` closure: map_or(port, 0, |_| 1)
-        cl = [p_ for p_ in prog.by_short if p_.endswith('DataFrame::build_into::{closure#0}')]
         one = False
-        if len(cl) == 1:
-            cb = prog.by_short[cl[0]][0]
-            one = any(s_.k == 'assign' and s_.lhs.local == 0 and s_.rv.k == 'use' and s_.rv.ops[0].const_int() == 1 for b_ in cb.blocks for s_ in b_.stmts)
-        okg = okg and one and ', 0, ' in port_terms[0]
+        if okg and port_terms[0].startswith('map_or(') and ', 0, ' in port_terms[0]:
+            cl = [p_ for p_ in prog.by_short if p_.endswith('DataFrame::build_into::{closure#0}')]
+            if len(cl) == 1:
+                cb = prog.by_short[cl[0]][0]
+                one = any(s_.k == 'assign' and s_.lhs.local == 0 and s_.rv.k == 'use' and s_.rv.ops[0].const_int() == 1 for b_ in cb.blocks for s_ in b_.stmts)
+        elif okg and port_terms[0].startswith('φ_'):
+            dl = rules.defs_with_conditions(bf, int(port_terms[0][2:]))
+            cases = {}
+            for v_, cs_, bb_ in dl:
+                dv = [x_[1][0] for x_ in cs_ if x_[0][0] == 'discr' and isinstance(x_[1], tuple) and len(x_[1]) == 1 and isinstance(x_[1][0], int)]
+                # the option tested must be the port option whose Some payload is the byte written at the cursor
+                if v_[0] == 'const' and dv:
+                    cases[dv[-1]] = v_[1]
+            one = cases == {0: 0, 1: 1} and len(dl) == 2
+        okg = okg and one
     res.require(okg, 'C01:DataFrame::build_into:contiguous', 'MIC offset is not 8 + len(FOpts) + (1 if a port is present) + len(FRMPayload): %s' % ((micw0[0][1] if micw0 else None),), bf.body.path,
                 'COVERAGE(MIC starts where the payload ends)', instance='frame bytes are contiguous: header 8 | FOpts | [FPort] | FRMPayload | MIC')
     # payload / port / key per Payload arm
@@ -361,7 +446,7 @@ def run(tier):
         a = [peel(term_of_operand(ebf, x)) for x in ghb[0][1].args]
         okx = a[0] == ('param', 1) and a[1] == ('const', 1) and a[2] == ('param', 4)
         ablk = index_call(a[3])[0] if index_call(a[3]) else a[3]
-        okx = okx and _ctr_shape(ebf, ablk, eb)
+        okx = okx and (_ctr_shape(ebf, ablk, eb) or _ctr_shape_blocks(ebf, ablk, eb))
     res.require(okx, 'C01:encrypt_frm_data_payload:ctr', 'payload encryption is not AES-CTR with Ai = helper block(0x01, full counter), Ai[15] = 1, 2, 3, ... per 16 bytes, XOR at start + i with keystream byte i & 15',
                 ebf.body.path, 'SPEC-LAYOUT(Ai) + INDUCTION(block counter) + SHAPE(xor)', instance='FRMPayload: XOR with AES(Ai), Ai tag 0x01, block index from 1, keystream byte i mod 16')
     # ------------------------------------------------------------------ JoinAccept
@@ -415,6 +500,13 @@ def run(tier):
         m_ = _re.search(r';\s*(\d+)\]', cft)
         n_el = int(m_.group(1)) if m_ else None
         okd = a[0] == 13 and b_[0] == 16 and a[1] == b_[1] and len(a[1]) == 1 and a[1][0][1] == 3 and 'enumerate' in a[1][0][0] and n_el is not None and 13 + 3 * n_el == 28
+        if not okd and n_el is not None and 13 + 3 * n_el == 28 and a[0] == 0 and b_[0] == 3 and a[1] == b_[1] and len(a[1]) == 1 and a[1][0][1] == 1 and a[1][0][0].startswith('φ_'):
+            # the same stride as a running offset: starts at 13, advances by 3 once per element of the 5-element list
+            cur_ = int(a[1][0][0][2:])
+            dl_ = rules.defs_with_conditions(jb, cur_)
+            kinds_ = sorted('init' if v_ == ('const', 13) else 'step' if rules.linear(v_) == ({('phi', cur_): 1}, 3) else 'other' for v_, cs_, bb_ in dl_)
+            step_bb = [bb_ for v_, cs_, bb_ in dl_ if rules.linear(v_) == ({('phi', cur_): 1}, 3)]
+            okd = kinds_ == ['init', 'step'] and all(jb.cfg.can_reach(strided[0].bb, sb_) for sb_ in step_bb) and any(callee_name(t_).endswith('Iterator::next') and jb.cfg.dominates(bb_, strided[0].bb) for bb_, t_ in jb.calls())
         if okd:
             dyn_cov |= set(range(13, 13 + 3 * n_el))
     want_cov = set(range(13, 29))
@@ -426,6 +518,15 @@ def run(tier):
     okw = 'write_mic' in names and 'decrypt_block' in names and names.index('write_mic') < names.index('decrypt_block') and 'encrypt_block' not in names
     dbk = [(bb, t) for bb, t in jb.calls() if callee_name(t).endswith('NetworkCrypto::decrypt_block')]
     ch = [(bb, t) for bb, t in jb.calls() if callee_name(t).endswith('chunks_exact_mut')]
+    if not dbk and len(ch) == 1:
+        # the per-block call may sit in a closure handed to for_each on the same chunk iterator
+        fe = [(bb, t) for bb, t in jb.calls() if callee_name(t).endswith('Iterator::for_each') and has_call(term_of_operand(jb, t.args[0]), 'chunks_exact_mut')]
+        cl = [p_ for p_ in prog.by_short if p_.startswith(jb.body.path + '::{closure')]
+        in_cl = [p_ for p_ in cl if any(callee_name(t_).endswith('NetworkCrypto::decrypt_block') for bb_, t_ in c.bf(p_).calls()) and len(list(c.bf(p_).calls())) == 1]
+        if len(fe) == 1 and len(in_cl) == 1:
+            dbk = fe
+            names = ['decrypt_block' if n_ in ('for_each', 'chunks_exact_mut') else n_ for n_ in names]
+            okw = 'write_mic' in names and 'decrypt_block' in names and names.index('write_mic') < names.index('decrypt_block') and 'encrypt_block' not in names
     okw = okw and len(dbk) == 1 and len(ch) == 1
     if okw:
         src = index_call(term_of_operand(jb, ch[0][1].args[0]))
